@@ -131,16 +131,16 @@ Theorem batch_starts_consistent : forall all, cache_inv all b_empty.
 Proof. exact cache_inv_empty. Qed.
 
 (* with the key looked up per row, a batch row is routed as a single row: into the remembered group if its span contains
-   the timestamp, else the catalogue's, by the shard key in force for the row's own measurement and that group *)
+   the timestamp, else the catalogue's, by the shard key in force for the row's database, measurement and that group *)
 Theorem batch_uncached_is_route : forall (hash : str -> N) st r g s,
   snd (batch_step hash false st r) = Some (g, s) ->
   r_kind r = RRoute /\ pick_group (b_sg st) (c_groups (m_cfg (r_m r))) (p_time (r_p r)) = Some g /\
-  sk_scan (m_vers (r_m r)) (g_id g) <> None /\ route_in hash (cfg_at (r_m r) (g_id g)) g (r_p r) = Some s.
+  wkey_in_force (r_m r) (g_id g) <> None /\ route_in hash (cfg_at (r_m r) (g_id g)) g (r_p r) = Some s.
 Proof. exact batch_uncached_is_route_proof. Qed.
 
 (* ... and pruning with the key in force for the row's group (per-group key in mapMstShards) finds it *)
 Theorem batch_prune_sound : forall (hash : str -> N) st r g s cond,
-  wf_group (m_cfg (r_m r)) g -> wf_point (r_p r) ->
+  wf_group (base_cfg (r_m r)) g -> wf_point (r_p r) ->
   snd (batch_step hash false st r) = Some (g, s) -> eval_cond (m_cfg (r_m r)) cond (r_p r) = true ->
   In s (target_group hash repaired (cfg_at (r_m r) (g_id g)) g cond) /\
   (forall tmin tmax, In g (query_groups (m_cfg (r_m r)) tmin tmax) ->
@@ -151,6 +151,24 @@ Proof.
   split; [exact Hs|]. intros tmin tmax Hq. apply target_m_in; auto.
 Qed.
 Print Assumptions batch_prune_sound.
+
+(* ------------------------------------------------------------------ database-level and measurement-level shard keys *)
+(* Which shard-key definition is in force is decided in two places: the write path (updateShardGroupAndShardKey: the
+   database's key if it has one, else the measurement's key for the row's group) and the read path (getTargetShardMsg +
+   mapMstShards). They are the SAME function of the catalogue - any database key, any key history of the measurement, any
+   group. (batch_prune_sound above is proved through this equation; the precedence "measurement first" is refuted.) *)
+Theorem key_in_force_write_eq_read : forall m gid, wkey_in_force m gid = rkey_in_force m gid.
+Proof. exact key_in_force_agree. Qed.
+Print Assumptions key_in_force_write_eq_read.
+
+(* a database-level key overrides every key of the measurement on both sides, and such a key is hashed *)
+Theorem database_key_overrides : forall m gid k ks, m_db m = k :: ks ->
+  wkey_in_force m gid = Some (k :: ks) /\ rkey_in_force m gid = Some (k :: ks) /\ c_typ (cfg_at m gid) = Hash.
+Proof. exact db_key_wins. Qed.
+Theorem without_database_key : forall m gid, m_db m = [] ->
+  wkey_in_force m gid = sk_scan (m_vers m) gid /\ rkey_in_force m gid = sk_scan (m_vers m) gid /\
+  c_typ (cfg_at m gid) = c_typ (m_cfg m).
+Proof. exact no_db_key. Qed.
 
 (* Hint queries (full_series), hash sharding, repaired key construction (the measurement's shard-key tags are selected from
    the single tag set, no pruning if one is not bound): the shard of every row satisfying the condition is consulted. A
